@@ -57,7 +57,9 @@ class Patterns(Monitor):
                             self.flag('dangling-parent-at-commit', ('job', k))
                             self.flag('dangling-parent-at-commit', ('batch', b))
                             self.flag('dangling-parent-at-commit', ('uic', v.batches[b]['user'], j['inst_coll']))
-                    if v.group_cancelled(b, j['job_group_id']) and not any(
+                    # (the staged ready counts that the commit adds blindly are non-zero only for a batch's first update: jobs of later
+                    # updates are inserted Pending and are accounted by the trigger, which does look at cancellation)
+                    if j['update_id'] == 1 and v.group_cancelled(b, j['job_group_id']) and not any(
                         self.cancelled_while_uncommitted.get((b, a)) for a in v.ancestors.get((b, j['job_group_id']), ()) if (b, a) in v.cancelled
                     ):
                         self.commit_after_cancel.add((b, j['update_id']))
